@@ -56,3 +56,7 @@ package socks
 //@   ensures-local fixed: err == nil ==> (h.Version == st(reader, 0) && h.Version == 5 && h.Command == st(reader, 1) && h.RSV == st(reader, 2) && h.ATYP == st(reader, 3) && (h.ATYP == 1 || h.ATYP == 3 || h.ATYP == 4))
 //@   ensures-local addr:  err == nil ==> (len(h.IpDomain) == alen(reader) && forall(k, 0, alen(reader), h.IpDomain[k] == st(reader, aoff(reader) + k)))
 //@   ensures-local port:  err == nil ==> h.Port == st(reader, aoff(reader) + alen(reader)) * 256 + st(reader, aoff(reader) + alen(reader) + 1)
+
+// Closing a SOCKS server closes its listener and touches nothing else.
+//@ func (s *Socks) Close()
+//@   requires nonnil: s != nil
